@@ -485,9 +485,21 @@ std::string do_stale(const Case& c) {
 	for (uint32_t v : b2)
 		e2.push_back(v == NIF_NPOS || v >= n ? v : order[v]);
 	bool ord_ok = nonempty(e2) == nonempty(a2);
+	// deleting the LAST block (nothing moves up, but references to it must still be emptied): if the instance itself
+	// is last, rotate once more so that a placeholder is
+	if (hdr.GetBlock<NiObject>(n - 1) == obj) {
+		hdr.SetBlockOrder(order);
+	}
+	std::vector<uint32_t> b3 = values();
+	hdr.DeleteBlock(n - 1);
+	std::vector<uint32_t> a3 = values();
+	std::vector<uint32_t> e3;
+	for (uint32_t v : b3)
+		e3.push_back(v == n - 1 ? NIF_NPOS : v);
+	bool last_ok = nonempty(e3) == nonempty(a3);
 	std::ostringstream os;
-	os << "nref=" << before.size() << " del_ok=" << del_ok << " ord_ok=" << ord_ok << " before=" << str_list(before) << " after=" << str_list(after)
-	   << " b2=" << str_list(b2) << " a2=" << str_list(a2);
+	os << "nref=" << before.size() << " del_ok=" << del_ok << " ord_ok=" << ord_ok << " last_ok=" << last_ok << " before=" << str_list(before) << " after=" << str_list(after)
+	   << " b2=" << str_list(b2) << " a2=" << str_list(a2) << " b3=" << str_list(b3) << " a3=" << str_list(a3);
 	return os.str();
 }
 
